@@ -12,7 +12,7 @@ from collections import Counter
 import numpy as np
 
 from ..core import choice, draw_cfg
-from ..oracles import MSG_ITER, compare_restart, pairs_close, restart_once
+from ..oracles import MSG_ITER, compare_restart, pairs_close, raise_witness, restart_once
 from ..problems import FAMILIES, build_problem, draw_problem_spec
 from ..world import Act, Store, snapshot, snap_diff
 
@@ -131,7 +131,7 @@ def execute(plan):
         stats["activations"] += 1
         stats["or.zero_iteration"] += 1
         if z.result is None:
-            add("restart.raised", k, {"kind": "zero", "exception": repr(z.exc)[:300]})
+            add("restart.raised", k, {"kind": "zero", **raise_witness(z)})
             key(k, npairs, "zero", "raised")
             continue
         zs = snapshot(z.result)
@@ -217,7 +217,7 @@ def execute(plan):
             stats["or.reduced_maxcor"] += 1
             stats["probe.restored_with_reduced_maxcor"] += 1
             if r2.result is None:
-                add("restart.raised", k, {"kind": "reduced", "exception": repr(r2.exc)[:300]})
+                add("restart.raised", k, {"kind": "reduced", **raise_witness(r2)})
             else:
                 s2 = snapshot(r2.result)
                 ok, info = pairs_close(s2["sk"], s2["yk"], ck["sk"][-m2:], ck["yk"][-m2:], ck)
@@ -255,7 +255,7 @@ def execute(plan):
             stats["fault.stop_restart"] += 1
             stats["probe.chain_segment"] += 1
             if seg.result is None:
-                add("restart.raised", k2, {"kind": "chain", "exception": repr(seg.exc)[:300]})
+                add("restart.raised", k2, {"kind": "chain", **raise_witness(seg)})
                 break
             if not _valid_stop(seg.result, k2):
                 break
